@@ -1,6 +1,6 @@
 (* C19/Proofs.v — collects the proof files and states, per instance, the link "the model
    satisfies the executable spec for ALL inputs" (every trace, hence every schedule). *)
-From Verif Require Export C19.Model C19.Pool C19.ProofsGen C19.ProofsPool C19.ProofsField C19.ProofsShard C19.ProofsMeta.
+From Verif Require Export C19.Model C19.Pool C19.ProofsGen C19.ProofsPool C19.ProofsField C19.ProofsShard C19.ProofsMeta C19.Wait C19.ProofsWait.
 Open Scope N_scope.
 
 (* (b) every disciplined trace leaves the model in a state on which the executable pool
@@ -31,3 +31,7 @@ Qed.
 Lemma auth_model_satisfies_spec tr a u pw h via :
   aph (run_trace mexec tr minit) a = AAccepted u pw h via -> N.eqb pw h = true.
 Proof. intros H. apply N.eqb_eq. eapply m_acc; [apply meta_trace_inv|exact H]. Qed.
+
+(* (e) *)
+Lemma wait_model_satisfies_spec tr w : stuck (run_trace wexec tr winit) w = false.
+Proof. apply winv_not_stuck, wait_trace_inv. Qed.
